@@ -1065,6 +1065,19 @@ func (e *env) epoch(ws []*writer, quota []int) {
 	e.lastOK = false
 }
 
+// rebindAll unbinds every stream (quiescent phase) and binds each again with the same info and
+// next writer.
+func (e *env) rebindAll(icpt interceptor.Interceptor) {
+	for _, st := range e.streams {
+		icpt.UnbindLocalStream(st.info)
+	}
+	icpt.UnbindLocalStream(e.ffInfo)
+	for _, st := range e.streams {
+		st.w = icpt.BindLocalStream(st.info, st.g)
+	}
+	e.ffW = icpt.BindLocalStream(e.ffInfo, e.ff)
+}
+
 // sequential performs n negotiated writes from the calling goroutine (quiescent phase).
 func (e *env) sequential(w *writer, n int) {
 	e.running.Store(1)
@@ -1674,6 +1687,12 @@ func runMedium(c *vf.Case) {
 		e.epoch(ws[:g], split(r, r.Range(200, 1500), g))
 		if r.Bool() {
 			e.sequential(seq, r.Range(1, 20))
+		}
+		if k+1 < rounds && r.Chance(0.4) {
+			// track replacement between two epochs: every stream is unbound and bound again (same
+			// next writers); the interceptor's one run of numbers goes on across it
+			e.rebindAll(icpt)
+			c.Add("histories_with_all_streams_unbound_and_bound_again", 1)
 		}
 	}
 	e.finish("medium", ws, icpt, false, nil)
